@@ -56,6 +56,19 @@ class CheckRun:
             nontrivial = render.nontrivial(prog)
         if shape is not None and nontrivial:
             self.shapes.add(hashlib.md5(repr(shape).encode()).hexdigest()[:16])
+        if prog is not None and "steps" in prog:
+            # how much of the workload lies in the shadow of a known finding: a finding of the listed kinds in such a
+            # program is excused, so the share of programs carrying each feature is reported with the evidence
+            self.counters["programs_screened_for_known_finding_features"] += 1
+            idxs = list(range(len(prog["steps"])))
+            for e in self.kf_entries:
+                if e.get("status") == "known" and self.prop in e["property"]:
+                    feat = kf.FEATURES.get(e["feature"])
+                    try:
+                        if feat is not None and feat(prog, idxs, None):
+                            self.counters["programs_with_feature_of:" + e["id"]] += 1
+                    except Exception:  # noqa: BLE001
+                        self.counters["feature_predicate_errors:" + e["id"]] += 1
         if sample is not None and len(self.samples) < 4:
             self.samples.append(sample)
         elif prog is not None and len(self.samples) < 3 and len(prog.get("steps", [])) >= 2 and self.evaluations % 7 == 1:
